@@ -145,3 +145,38 @@ Proof.
   split; [apply cell_wrap_u_default_inst; assumption|]. split; [apply cell_wrap_L_default_inst; assumption|].
   split; [apply corner_wrap_u_inst; assumption|apply corner_wrap_L_inst; assumption].
 Qed.
+
+(* what holds of simple shear and of the Stokes cell (KNOWN FINDINGS), about the generated wrappers *)
+Theorem gen_shear_partial (hl vl : Z) (rate t : R) (x : arr R) i j :
+  letter6_ok hl -> letter6_ok vl ->
+  @wrapper_indices NumR 0 (fold_case hl) (fold_case vl) [rate] = Ok (i, j) ->
+  exists a G, @k_simple_shear_2d_wrap_u NumR hl vl rate t x = Ok a /\
+              @k_simple_shear_2d_wrap_L NumR hl vl rate t x = Ok G /\
+    (forall k, (k < 3)%nat -> a k = shear_field i j rate x k) /\
+    (forall k m, (k < 3)%nat -> (m < 3)%nat ->
+       exists J, is_derive (fun s => shear_field i j rate (upd x m s) k) (x m) J /\
+                 G (3 * k + m)%nat = 2 * J) /\
+    G 0%nat + G 4%nat + G 8%nat = 0.
+Proof.
+  intros Hh Hv E.
+  rewrite (shear_wrap_u_inst hl vl rate t x Hh Hv), (shear_wrap_L_inst hl vl rate t x Hh Hv).
+  exact (shear_partial_proof (fold_case hl) (fold_case vl) rate t x i j (fold_case_ok hl Hh) (fold_case_ok vl Hv) E).
+Qed.
+
+Theorem gen_cell_partial (hl vl : Z) (u d t : R) (x : arr R) i j :
+  letter6_ok hl -> letter6_ok vl ->
+  @wrapper_indices NumR 1 (fold_case hl) (fold_case vl) [u; d] = Ok (i, j) ->
+  in_cell d (x i) (x j) ->
+  exists a G, @k_cell_2d_wrap_u NumR hl vl u d t x = Ok a /\
+              @k_cell_2d_wrap_L NumR hl vl u d t x = Ok G /\
+    (forall k, (k < 3)%nat -> a k = cell_field i j u d x k) /\
+    (forall k m, (k < 3)%nat -> (m < 3)%nat -> k <> j ->
+       is_derive (fun s => cell_field i j u d (upd x m s) k) (x m) (G (3 * k + m)%nat)) /\
+    is_derive (fun s => cell_field i j u d (upd x i s) j) (x i) (G (3 * j + j)%nat) /\
+    is_derive (fun s => cell_field i j u d (upd x j s) j) (x j) (G (3 * j + i)%nat) /\
+    (forall m, (m < 3)%nat -> m <> i -> m <> j -> G (3 * j + m)%nat = 0).
+Proof.
+  intros Hh Hv E Hin.
+  rewrite (cell_wrap_u_inst hl vl u d t x Hh Hv), (cell_wrap_L_inst hl vl u d t x Hh Hv).
+  exact (cell_partial_proof (fold_case hl) (fold_case vl) u d t x i j (fold_case_ok hl Hh) (fold_case_ok vl Hv) E Hin).
+Qed.
